@@ -23,6 +23,7 @@ type cStep struct {
 	K   string // Acquire Record Tick Manual
 	I   int
 	Cxl bool // Record: the execution's context is cancelled just before its function returns
+	Unh bool // Record: the function returns an error the breaker's handle conditions do not cover (recorded as a success)
 	Ok  bool
 	R   int64
 	Dt  int64
@@ -34,7 +35,7 @@ func (s cStep) Gallina() string {
 	case "Acquire":
 		return fmt.Sprintf("CAcquire %d%%nat", s.I)
 	case "Record":
-		if s.Ok {
+		if s.Ok || s.Unh {
 			return fmt.Sprintf("CRecord %d%%nat true None", s.I)
 		}
 		return fmt.Sprintf("CRecord %d%%nat false (Some %s)", s.I, gZ(s.R))
@@ -46,18 +47,19 @@ func (s cStep) Gallina() string {
 }
 
 type gateMsg struct {
-	ok bool
-	r  int
+	ok  bool
+	r   int
+	unh bool
 }
 
 // runSchedule executes the schedule on a real breaker; next chooses each step from the live state.
-func runSchedule(t *testing.T, calls []BCallD, n int, nsteps int, variant []string, rng *Rng, delay int64) (steps []cStep, snaps []string, start int64, maxInflight int) {
+func runSchedule(t *testing.T, calls []BCallD, n int, nsteps int, variant []string, rng *Rng, delay int64, handles bool, forced []cStep) (steps []cStep, snaps []string, start int64, maxInflight int) {
 	synctest.Test(t, func(t *testing.T) {
 		t0 := time.Now()
 		start = t0.UnixNano()
 		gen := 0
 		b := circuitbreaker.Builder[int]()
-		cb := buildBreakerWith(calls, func(circuitbreaker.StateChangedEvent) { gen += 2 })
+		cb := buildBreakerWith(calls, handles, func(circuitbreaker.StateChangedEvent) { gen += 2 })
 		_ = b
 		status := make([]int, n)
 		gens := make([]int, n)
@@ -78,6 +80,9 @@ func runSchedule(t *testing.T, calls []BCallD, n int, nsteps int, variant []stri
 				m := <-gates[i]
 				if m.ok {
 					return 0, nil
+				}
+				if m.unh {
+					return m.r, sent(1).Build() // not among the errors the breaker handles: a success for the breaker
 				}
 				return m.r, sent(0).Build()
 			}
@@ -130,12 +135,28 @@ func runSchedule(t *testing.T, calls []BCallD, n int, nsteps int, variant []stri
 				}
 			}
 			var s cStep
+			if k := len(steps); k < len(forced) {
+				// a forced prefix (dropped as soon as a step does not fit the live state)
+				f := forced[k]
+				fits := f.K == "Tick" || f.K == "Manual" || (f.K == "Acquire" && f.I < n && status[f.I] == 0) || (f.K == "Record" && f.I < n && status[f.I] == 2)
+				if !fits {
+					forced = nil
+					continue
+				}
+				s = f
+			} else {
+				s = cStep{}
+			}
 			switch c := rng.Intn(20); {
+			case s.K != "":
 			case c < 8 && len(idle) > 0:
 				s = cStep{K: "Acquire", I: Pick(rng, idle)}
 			case c < 14 && len(flying) > 0:
 				s = cStep{K: "Record", I: Pick(rng, flying), Ok: rng.Chance(40), R: Pick(rng, []int64{0, 1, 7})}
-				if !s.Ok && rng.Chance(35) {
+				if !s.Ok && handles && rng.Chance(35) {
+					s.Unh = true
+				}
+				if !s.Ok && !s.Unh && rng.Chance(35) {
 					s.Cxl = true // a trial that ends because its execution was cancelled still records its outcome
 				}
 			case c < 18:
@@ -161,7 +182,7 @@ func runSchedule(t *testing.T, calls []BCallD, n int, nsteps int, variant []stri
 				if s.Cxl {
 					cancels[s.I]()
 				}
-				gates[s.I] <- gateMsg{s.Ok, int(s.R)}
+				gates[s.I] <- gateMsg{s.Ok, int(s.R), s.Unh}
 			case "Tick":
 				time.Sleep(time.Duration(s.Dt))
 			default:
@@ -181,7 +202,7 @@ func runSchedule(t *testing.T, calls []BCallD, n int, nsteps int, variant []stri
 		// let every execution finish so that the bubble can end
 		for i := 0; i < n; i++ {
 			if status[i] == 2 {
-				gates[i] <- gateMsg{true, 0}
+				gates[i] <- gateMsg{true, 0, false}
 			}
 		}
 		synctest.Wait()
@@ -192,8 +213,11 @@ func runSchedule(t *testing.T, calls []BCallD, n int, nsteps int, variant []stri
 	return
 }
 
-func buildBreakerWith(calls []BCallD, onChange func(circuitbreaker.StateChangedEvent)) circuitbreaker.CircuitBreaker[int] {
+func buildBreakerWith(calls []BCallD, handles bool, onChange func(circuitbreaker.StateChangedEvent)) circuitbreaker.CircuitBreaker[int] {
 	b := circuitbreaker.Builder[int]()
+	if handles {
+		b = b.HandleErrors(sent(0).Build()) // every other error is none of the breaker's business
+	}
 	for _, c := range calls {
 		c := c
 		switch c.K {
@@ -262,7 +286,32 @@ func TestDrive_C04(t *testing.T) {
 			variant[i] = Pick(rng, []string{"plain", "plain", "fallback", "timeout", "retry0", "async"})
 			w.Stat("variant=" + variant[i])
 		}
-		steps, snaps, start, maxIn := runSchedule(t, calls, nth, 10+rng.Intn(40), variant, rng, delay)
+		handles := rng.Chance(40)
+		var forced []cStep
+		if it%6 == 5 {
+			// rate-based thresholding without a success threshold: open after N failures, let the delay pass, complete one
+			// half-open trial, then start N more at once
+			N := 2 + rng.Intn(2)
+			delay = 1000
+			calls = []BCallD{{K: "Delay", A: delay}, {K: "FailureRateThreshold", A: Pick(rng, []int64{34, 50, 100}), B: int64(N), C: 1_000_000_000}}
+			nth = 2*N + 3
+			variant = make([]string, nth)
+			for i := range variant {
+				variant[i] = Pick(rng, []string{"plain", "plain", "timeout", "async"})
+			}
+			for k := 0; k < N; k++ {
+				forced = append(forced, cStep{K: "Acquire", I: k}, cStep{K: "Record", I: k, R: 1})
+			}
+			forced = append(forced, cStep{K: "Tick", Dt: delay + 1}, cStep{K: "Acquire", I: N}, cStep{K: "Record", I: N, Ok: rng.Bool(), R: 1})
+			for k := 0; k <= N; k++ {
+				forced = append(forced, cStep{K: "Acquire", I: N + 1 + k})
+			}
+			w.Stat("forced=rate-half-open")
+		}
+		if handles {
+			w.Stat("breaker_handles_one_error_only")
+		}
+		steps, snaps, start, maxIn := runSchedule(t, calls, nth, 10+rng.Intn(40)+len(forced), variant, rng, delay, handles, forced)
 		cs := make([]string, len(calls))
 		for i, c := range calls {
 			cs[i] = c.Gallina()
@@ -286,5 +335,5 @@ func TestDrive_C04(t *testing.T) {
 		}, map[string]any{"builder_calls": strings.Join(cs, " "), "threads": nth, "variants": variant, "schedule": strings.Join(ss, "; "), "snapshots": strings.Join(snaps, "; ")},
 			halfOpenSeen && maxIn >= 2, cl+sl)
 	}
-	w.Close("schedules of 10-49 atomic steps over 3-10 executions (plain, under Fallback/Timeout/Retry, async) through one breaker in a virtual-time bubble: start execution i (runs to its admission decision; an admitted function then blocks on a gate), let execution i finish with a success or failure (result feeds the delay function), advance the clock (1ns, delay-1, delay, delay+1, the exact remaining delay and 1ns less, random), manual Open/HalfOpen/Close. After every step: breaker state, state-change generation, each execution's status and admission generation. Non-trivial = a half-open state was reached and at least two executions were in flight at once; distinct by (configuration, schedule).", nil)
+	w.Close("schedules of 10-49 atomic steps over 3-10 executions (plain, under Fallback/Timeout/Retry, async) through one breaker in a virtual-time bubble: start execution i (runs to its admission decision; an admitted function then blocks on a gate), let execution i finish with a success, a failure or -- for breakers built with HandleErrors -- an error the breaker does not handle (result feeds the delay function), advance the clock (1ns, delay-1, delay, delay+1, the exact remaining delay and 1ns less, random), manual Open/HalfOpen/Close. After every step: breaker state, state-change generation, each execution's status and admission generation. Non-trivial = a half-open state was reached and at least two executions were in flight at once; distinct by (configuration, schedule).", nil)
 }
